@@ -56,10 +56,11 @@ Fixpoint insert_sorted {A} (key : A -> N) (x : A) (l : list A) : list A :=
 
 Definition sort_by {A} (key : A -> N) (l : list A) : list A := fold_right (insert_sorted key) [] l.
 
-Definition snapshot (w : world) : list Z :=
+Definition snapshot (c : config) (w : world) : list Z :=
   let now := w_clock w in
   let es := sort_by fst (filter (fun ke => entry_live now (snd ke)) (w_store w)) in
-  let ls := sort_by fst (filter (fun kl => now <? l_exp (snd kl)) (w_locks w)) in
+  (* the in-memory store's lock table is private to the process: not observable *)
+  let ls := if c_redis c then sort_by fst (filter (fun kl => now <? l_exp (snd kl)) (w_locks w)) else [] in
   [Z.of_nat (length es)] ++
   flat_map (fun ke => let e := snd ke in
      let m := sd_md (e_data e) in
@@ -86,7 +87,7 @@ Fixpoint run_observe (c : config) (s : mstate) (es : list event) : list (list Z)
   match es with
   | [] => []
   | e :: r => let '(s', o) := apply_event c s e in
-              (obs_code o ++ [-7] ++ thread_outcome c s' e ++ [-7] ++ snapshot (m_w s')) :: run_observe c s' r
+              (obs_code o ++ [-7] ++ thread_outcome c s' e ++ [-7] ++ snapshot c (m_w s')) :: run_observe c s' r
   end.
 
 Definition mk_config (redis sso fwd : bool) (inact : option Z) (maxlife : Z) (acr pacr : N) (idtok autologin : bool)
